@@ -245,6 +245,9 @@ def ob_equivocation(run, oid):
                             K.peel(x)[0] == "call" and K.peel(x)[1].endswith("ValidatedShred::commitment") for x in a[1]):
                         removed_edges += [i for i, e in enumerate(es) if e[0] == s_ and e[2] == ("sw", v)]
         removed_edges += [i for i, e in enumerate(es) if e[1] in removed_nodes]
+        # a block that builds an Err(..) result is on its way out (returned directly or through `?`): not a way to the store
+        err_nodes = set(bb2 for (bb2, rv2, sp2, dst2) in b.aggregates("core::result::Result", "Err"))
+        removed_edges += [i for i, e in enumerate(es) if e[0] in err_nodes]
         for e0 in ent:
             r_ = b.reachable(e0, removed_edges=removed_edges)
             o.check(bool(removed_nodes) and bool(removed_edges) and sbb not in r_, "BlockData::add_shred|store|only-identical-commitment",
